@@ -16,7 +16,7 @@ import (
 	"verifharness/internal/sx"
 )
 
-var alphabet = []string{"", ".", "..", "a", "a/b", "a\\b", "...", "..a", "/", "b"}
+var alphabet = []string{"", ".", "..", "a", "a/b", "a\\b", "...", "..a", "/", "b", "\\a", "a\\", "/a", "\\"}
 var dirs = [][]string{{}, {"x"}, {"x", "y"}, {"x", "y", "z"}}
 
 func render(comps []string) string { return "/" + strings.Join(comps, "/") }
@@ -107,7 +107,7 @@ func catch(f func()) (panicked bool) {
 func main() {
 	r := rep.Open()
 	defer r.Close()
-	r.Rule = "exhaustive grid: all name lists of length<=4 over {'', '.', '..', a, a/b, a\\b, ..., ..a, /, b} x canonical dirs of depth 0..3 for ValidPath/NormalizePath/WalkName; CreateName over dirs x alphabet; ToWalk/path.Clean over all strings of length<=7 over {/ . a \\}; plus random byte-string names. A case is non-trivial when its name list or string is non-empty; distinct by canonical case text."
+	r.Rule = "exhaustive grid: all name lists of length<=4 over {'', '.', '..', a, a/b, a\\b, ..., ..a, /, b, \\a, a\\, /a, \\} x canonical dirs of depth 0..3 for ValidPath/NormalizePath/WalkName; CreateName over dirs x alphabet; ToWalk/path.Clean over all strings of length<=7 over {/ . a \\}; plus random byte-string names. A case is non-trivial when its name list or string is non-empty; distinct by canonical case text."
 	rng := prng.New(r.Seed)
 
 	var lists [][]string
